@@ -362,6 +362,48 @@ func runEncoding(e *Enc, fn *ssa.Function, props []string) {
 				e.obligs = append(e.obligs, o)
 				continue
 			}
+			if strings.HasPrefix(fc.Text, "calledby ") {
+				// every static call of this function in the program is in one of the listed functions
+				pats := strings.Fields(fc.Text)[1:]
+				var hit []string
+				for key, g := range P.Funcs {
+					for _, b := range g.Blocks {
+						for _, in := range b.Instrs {
+							ci, ok := in.(ssa.CallInstruction)
+							if !ok {
+								continue
+							}
+							callee := ci.Common().StaticCallee()
+							if callee == nil {
+								if mc, ok := ci.Common().Value.(*ssa.MakeClosure); ok {
+									callee, _ = mc.Fn.(*ssa.Function)
+								}
+							}
+							if callee != fn && (callee == nil || boundMethodTarget(callee) != fn) {
+								continue
+							}
+							ok2 := false
+							for _, pat := range pats {
+								if globMatch(pat, key) {
+									ok2 = true
+								}
+							}
+							if !ok2 {
+								hit = append(hit, key)
+							}
+						}
+					}
+				}
+				sort.Strings(hit)
+				o := &Oblig{Name: e.Key + "#frame[" + fc.Text + "]", Kind: "frame", Props: fc.Props, Func: e.Key, Pos: fmt.Sprintf("%s:%d", filepath.Base(sp.File), fc.Line), Reach: tTrue, Goal: tFalse, enc: e}
+				if len(hit) == 0 {
+					o.Result = &SolveResult{Status: "unsat", Backend: "call-graph"}
+				} else {
+					o.Result = &SolveResult{Status: "unknown", Backend: "call-graph", Output: "also called from: " + strings.Join(hit, ", ")}
+				}
+				e.obligs = append(e.obligs, o)
+				continue
+			}
 			if strings.HasPrefix(fc.Text, "region ") {
 				// backing arrays of slices: decided by the region analysis
 				pats := strings.Fields(fc.Text)[1:]
